@@ -21,6 +21,8 @@ class Parser:  # pylint: disable=too-many-public-methods
     def __init__(self, tokens):
         self.current = 0
         self.tokens = tokens
+        # Depth of nested function calls. Call arguments are Python expressions, not model terms.
+        self.call_depth = 0
         # pass options to understand custom functionality
 
     def at_end(self):
@@ -140,11 +142,25 @@ class Parser:  # pylint: disable=too-many-public-methods
         return expr
 
     def multiple_interaction(self):
+        if self.call_depth:
+            return self.factor()
         expr = self.unary()
         while self.match(["STAR_STAR"]):
             operator = self.previous()
             right = self.unary()
             expr = Binary(expr, operator, right)
+        return expr
+
+    def factor(self):
+        """Unary signs and powers inside function calls follow Python: '**' binds tighter than a
+        sign on its left and is right-associative, so '-x ** 2' is '-(x ** 2)'."""
+        if self.match(["PLUS", "MINUS"]):
+            operator = self.previous()
+            return Unary(operator, self.factor())
+        expr = self.call()
+        if self.match(["STAR_STAR"]):
+            operator = self.previous()
+            expr = Binary(expr, operator, self.factor())
         return expr
 
     def unary(self):
@@ -165,11 +181,13 @@ class Parser:  # pylint: disable=too-many-public-methods
 
     def finishcall(self, expr):
         args = []
+        self.call_depth += 1
         if not self.check("RIGHT_PAREN"):
             while True:
                 args.append(self.expression())
                 if not self.match("COMMA"):
                     break
+        self.call_depth -= 1
         self.consume("RIGHT_PAREN", "Expect ')' after arguments.")
         expr = Call(expr, args)
         return expr
@@ -206,7 +224,9 @@ class Parser:  # pylint: disable=too-many-public-methods
             return Grouping(expr)
         elif self.match("LEFT_BRACE"):
             # {x + 1} is translated to I(x + 1) and then we resolve the latter.
+            self.call_depth += 1
             expr = self.expression()
+            self.call_depth -= 1
             self.consume("RIGHT_BRACE", "Expect '}' after expression.")
             return Call(Variable(Token("IDENTIFIER", "I")), [expr])
         else:  # pragma: no cover
